@@ -106,7 +106,8 @@ pub fn for_property(prop: &str) -> Vec<Family> {
             f("mix", "all operation kinds, all pools", g_mix, Q / 4, T / 4),
         ],
         "C05" => vec![
-            f("drop", "last owner dropped by callers and by jobs of other objects while work is queued, running, suspended or being woken", gen_drop, Q / 2, T / 2),
+            f("drop", "last owner dropped by callers and by jobs of other objects while work is queued, running, suspended or being woken", gen_drop, Q * 3 / 8, T * 3 / 8),
+            sw("drop-wake-sweep", "no pool thread: the dropping thread runs the queue itself; the wake-up of the suspended operation it waits for is injected at each of its scheduling points", gen_drop_wake_sweep, Q / 8, T / 8, 48),
             sw("drop-sweep", "drop of the last owner injected at every scheduling point of the context running the object's jobs", gen_drop_sweep, Q * 3 / 8, T * 3 / 8, 64),
             f("pipe-drop", "the pipe's own strong reference as the last owner: released through the drop of the output stream", gen_pipe_drop, Q / 8, T / 8),
         ],
